@@ -410,6 +410,9 @@ class CSSSerializer(object):
 
     def do_CSSStyleSheet(self, stylesheet):
         """serializes a complete CSSStyleSheet"""
+        # (the nesting by specificity starts anew with every sheet)
+        self._selectors = []
+        self._selectorlevel = 0
         useduris = stylesheet._getUsedURIs()
         out = []
         for rule in stylesheet.cssRules:
@@ -804,6 +807,9 @@ class CSSSerializer(object):
                 # save new reference
                 self._selectors.append(rule.selectorList)
                 self._selectorlevel = 0
+        else:
+            # (no level is left over from rules written with the preference)
+            self._selectorlevel = 0
 
         # TODO ^ RESOLVE!!!!
 
